@@ -627,6 +627,15 @@ func (x *wfExec) prep(ctx context.Context, leaf int, store *flyt.SharedStore) (a
 		err = mkErr(o.Err, x.tag(leaf, visit, "prep", 0))
 	} else {
 		ret = mkPayload(o.Pay, x.tag(leaf, visit, "prep", 0))
+		// A prep value may also be one of flyt's own types - it is still just the node's value:
+		// a []flyt.Result (any node kind), or - for struct nodes - a flyt.Result.
+		kind := x.sc.Nodes[leaf].Leaf.Kind
+		switch {
+		case o.Pay%numPayKinds == 5 && (leaf+visit)%2 == 1:
+			ret = []flyt.Result{flyt.NewResult(&Tok{Tag: x.tag(leaf, visit, "prep", 0)}), flyt.NewResult(1)}
+		case o.Pay%numPayKinds == 6 && kind != KFunc && kind != KBatch && (leaf+visit)%2 == 1:
+			ret = flyt.NewResult(&Tok{Tag: x.tag(leaf, visit, "prep", 0)})
+		}
 	}
 	x.end(seq, ret, err, "")
 	return ret, err
